@@ -34,6 +34,7 @@ import (
 	pb "github.com/containerd/stargz-snapshotter/fusemanager/api"
 	"github.com/containerd/stargz-snapshotter/service"
 	"github.com/containerd/stargz-snapshotter/snapshot"
+	"github.com/containerd/stargz-snapshotter/util/verifhook"
 )
 
 const (
@@ -211,6 +212,7 @@ func (fm *Server) Init(ctx context.Context, req *pb.InitRequest) (*pb.Response, 
 	fm.curCRIServer = cc.CRIServer
 
 	fs, err := service.NewFileSystem(ctx, fm.root, &fm.config.Config, opts...)
+	verifhook.Event("fusemgr.newfs", &fs, &err)
 	if err != nil {
 		return &pb.Response{}, err
 	}
